@@ -1147,11 +1147,11 @@ async fn run_upload(sh: &Shared, part: usize, parts: usize, tier: Tier, wd: &Pat
                             if left.is_empty() {
                                 break;
                             }
-                            if t0.elapsed() > Duration::from_secs(3) {
+                            if t0.elapsed() > Duration::from_secs(8) {
                                 if target.exists() {
                                     fail("upload:wrong_bytes_stored:aborted_midway".into(), "the target path exists after the connection was closed midway".into());
                                 } else {
-                                    fail("upload:temp_file_left_behind:aborted_midway".into(), format!("3 s after the connection was closed the directory holds {:?}", left));
+                                    fail("upload:temp_file_left_behind:aborted_midway".into(), format!("8 s after the connection was closed the directory holds {:?}", left));
                                 }
                                 break;
                             }
@@ -1436,7 +1436,7 @@ fn main() {
     let mut histories = [0u64; 3];
     let mut samples: [Vec<Value>; 3] = [vec![], vec![], vec![]];
     let mut upload_status: BTreeMap<String, u64> = BTreeMap::new();
-    let (mut refused, mut accepted) = (0u64, 0u64);
+    let (mut refused, mut accepted, mut lock_waits) = (0u64, 0u64, 0u64);
     for (i, r) in res.into_iter().enumerate() {
         match r {
             pool::ItemResult::Crashed(w) => run.machinery(format!("item {:?}: {}", its[i], w)),
@@ -1477,6 +1477,7 @@ fn main() {
                 }
                 refused += v["extra"]["refused"].as_u64().unwrap_or(0);
                 accepted += v["extra"]["accepted_correct"].as_u64().unwrap_or(0);
+                lock_waits += v["extra"]["lock_waits"].as_u64().unwrap_or(0);
                 for f in v["fails"].as_array().cloned().unwrap_or_default() {
                     run.fail(f["sig"].as_str().unwrap_or("?"), f["what"].as_str().unwrap_or(""), f["witness"].clone());
                 }
@@ -1501,7 +1502,7 @@ fn main() {
     cov.insert("rule".into(), json!(format!("(a) every history up to depth {da} over {{create file secret (6000-byte content in the default folder | 100-byte content in the second folder; the other combinations arise through replace and move), replace content (Account::update_file), update meta only, move to the other folder, delete secret, delete the second folder, archive}} x every live file secret, from the two-folder account{pb}, on the file-system and sqlite client backends, explored as a tree with directory snapshots; each file encryption / decryption costs about 1 s (age scrypt), hence the shallow depth. (b) every maximal history of depth {db} from the two-folder account through the real NetworkAccount (sync + file transfer queue) against an in-process server, second device = real NetworkAccount on a copy of the initial account that syncs after every step{late}. (c) a {blen}-byte real encrypted blob: every single-byte alteration ({vals} per position), truncation at every length, empty, 3 extended bodies, 2 wrong names, connection closed midway at {ab} length, repeated upload; each followed by a correct upload and a download. A state is the id-free model state (folder liveness, per file secret folder and content) per backend", da = depth_a(args.tier), pb = args.tier.pick(String::new(), format!(" and from the two-folder account that already holds one file secret (i.e. depth {} histories that begin with a create)", depth_a(args.tier) + 1)), db = depth_b(args.tier), late = args.tier.pick("", "; and the same histories performed with no server configured, after which first the editing device and then the second device add the server"), blen = std::fs::metadata(&sh.upload_blob).map(|m| m.len()).unwrap_or(0), vals = args.tier.pick("3 values", "all 255 values"), ab = args.tier.pick("every 16th", "every"))));
     cov.insert("part_a_histories_one_device".into(), json!({"histories": histories[0], "depth": depth_a(args.tier), "backends": ["fs", "sqlite"], "work_items": its.iter().filter(|i| matches!(i, Item::Hist { .. })).count()}));
     cov.insert("part_b_transfer".into(), json!({"machinery": "real sos_net::NetworkAccount on both devices (add_server, automatic sync after every operation, its own file transfer queue); not the bare HttpClient file API", "maximal_histories": histories[1], "depth": depth_b(args.tier), "device_and_server_backends": args.tier.pick("fs", "fs and sqlite"), "second_device_syncs": cnt.syncs}));
-    cov.insert("part_c_upload_inputs".into(), json!({"inputs": histories[2], "http_requests": cnt.requests, "wrong_bodies_refused": refused, "correct_uploads_accepted_afterwards": accepted, "responses": upload_status}));
+    cov.insert("part_c_upload_inputs".into(), json!({"inputs": histories[2], "http_requests": cnt.requests, "wrong_bodies_refused": refused, "correct_uploads_accepted_afterwards": accepted, "retries_while_the_server_held_the_file_lock_of_an_aborted_upload": lock_waits, "responses": upload_status}));
     cov.insert("store_checks".into(), json!(cnt.store_checks));
     cov.insert("blobs_hashed".into(), json!(cnt.blobs_hashed));
     cov.insert("blobs_decrypted_and_compared".into(), json!(cnt.decrypts));
